@@ -52,10 +52,12 @@ func ProfileFor(id, tier string) *Profile {
 		p.LongFrac = 0.15
 	case "C04", "C09":
 		bump(map[string]int{"tip": 25, "create_reporter": 12, "select_reporter": 10, "switch_reporter": 4, "withdraw_tip": 8, "gov_proposal": 3, "gov_vote": 12, "double_report": 12})
+		p.LongFrac = 0.12 // several deposit rounds closing in one block: one time-based reward paid over several aggregates
 	case "C05", "C10":
 		bump(map[string]int{"delegate": 10, "undelegate": 10, "redelegate": 8, "cancel_unbonding": 3, "propose_dispute": 10, "add_fee": 6, "withdraw_fee_refund": 6, "withdraw_tip": 8, "select_reporter": 10, "switch_reporter": 5, "create_validator": 2, "gov_proposal": 3, "gov_vote": 12})
 		p.Faults["partition"] = 0.05
 		p.Candidates = [2]int{0, 2}
+		p.SdkSlash = 0.3 // unbonding entries whose balance fell below their initial balance
 	case "C07", "C08":
 		bump(map[string]int{"tip": 25, "submit_value": 45, "gov_proposal": 3, "gov_vote": 12, "request_attestations": 6, "propose_dispute": 6, "add_evidence": 4, "withdraw_tokens": 5, "double_report": 10})
 	case "C11", "C12", "C13":
